@@ -27,7 +27,7 @@ ev!(E1, E2, E3, E4, E5, E6);
 
 /// Registration actions. Any two differ in kind, type, priority or independence target
 /// (never only in a send rate, which the property does not list).
-const ACTIONS: [&str; 26] = [
+const ACTIONS: [&str; 29] = [
     "replicate::<A>",                       // 0
     "replicate::<B>",                       // 1
     "replicate_once::<C>",                  // 2
@@ -52,8 +52,11 @@ const ACTIONS: [&str; 26] = [
     "make_trigger_independent::<E6>",       // 21 needs 16
     "add_mapped_like_server_event::<E2>",   // 22 server event E2 (type shared with client event 11)
     "add_client_event::<E3>",               // 23 client event E3 (type shared with server event 13)
-    "replicate::<C>@prio1",                 // 24 (unused placeholder kept distinct; see apply)
+    "add_server_trigger::<E3>",             // 24 trigger for a type that is also a server event (13)
     "add_server_event::<E4>",               // 25 server event for a type used as client trigger
+    "make_trigger_independent::<E3>",       // 26 needs 24 (same type as 18, different kind)
+    "add_server_event::<E5>",               // 27 server event for a type that is also a server trigger (15)
+    "make_event_independent::<E5>",         // 28 needs 27 (same type as 20, different kind)
 ];
 
 fn prerequisite(a: usize) -> Option<usize> {
@@ -62,25 +65,20 @@ fn prerequisite(a: usize) -> Option<usize> {
         19 => Some(12),
         20 => Some(15),
         21 => Some(16),
+        26 => Some(24),
+        28 => Some(27),
         _ => None,
     }
 }
 
 /// Actions that cannot coexist in one app (same Bevy resource registered twice etc.).
 fn conflicts(a: usize, b: usize) -> bool {
-    let groups: [&[usize]; 3] = [
-        &[2, 24],      // C once vs C every tick: differ only in send rate -> never both, never swapped
-        &[15, 15],
-        &[16, 16],
-    ];
-    groups.iter().any(|g| g.contains(&a) && g.contains(&b) && a != b)
+    let _ = (a, b);
+    false
 }
 
 fn valid(seq: &[usize]) -> bool {
     for (i, a) in seq.iter().enumerate() {
-        if *a == 24 {
-            return false;
-        }
         if seq[..i].contains(a) {
             return false;
         }
@@ -170,8 +168,20 @@ fn apply(app: &mut App, a: usize) {
         23 => {
             app.add_client_event::<E3>(Channel::Unordered);
         }
+        24 => {
+            app.add_server_trigger::<E3>(Channel::Ordered);
+        }
         25 => {
             app.add_server_event::<E4>(Channel::Ordered);
+        }
+        26 => {
+            app.make_trigger_independent::<E3>();
+        }
+        27 => {
+            app.add_server_event::<E5>(Channel::Ordered);
+        }
+        28 => {
+            app.make_event_independent::<E5>();
         }
         _ => unreachable!(),
     }
@@ -183,15 +193,57 @@ struct Hs {
     requests: Vec<Entity>,
 }
 
+/// Unrelated local state of an app (shifts component / resource ids); never part of the protocol.
+#[derive(Component, Default)]
+struct LocalA(u8);
+#[derive(Component, Default)]
+struct LocalB(u64);
+#[derive(Component, Default)]
+struct LocalC;
+#[derive(Resource, Default)]
+struct LocalRes(u32);
+
+fn add_noise(app: &mut App, kind: u8) {
+    match kind % 4 {
+        0 => {
+            app.world_mut().register_component::<LocalA>();
+        }
+        1 => {
+            app.init_resource::<LocalRes>();
+            app.world_mut().register_component::<LocalB>();
+        }
+        2 => {
+            app.world_mut().spawn((LocalA(1), LocalB(2), LocalC));
+        }
+        _ => {
+            app.world_mut().register_component::<LocalC>();
+            app.world_mut().register_component::<A>();
+            app.world_mut().register_component::<D>();
+        }
+    }
+}
+
 fn build(seq: &[usize], auth: AuthMethod) -> App {
+    build_with_noise(seq, auth, 0)
+}
+
+/// `noise` != 0: unrelated local components/resources are created before and between the registrations.
+fn build_with_noise(seq: &[usize], auth: AuthMethod, noise: u64) -> App {
     let mut app = App::new();
     app.add_plugins((
         MinimalPlugins,
         RepliconPlugins.set(RepliconSharedPlugin { auth_method: auth }).set(ServerPlugin { tick_policy: TickPolicy::EveryFrame, ..Default::default() }),
     ))
     .init_resource::<Hs>();
+    let mut n = Rng::new(noise);
+    if noise != 0 {
+        add_noise(&mut app, n.next() as u8);
+    }
     for a in seq {
         apply(&mut app, *a);
+        if noise != 0 && n.below(2) == 0 {
+            add_noise(&mut app, n.next() as u8);
+        }
     }
     if auth == AuthMethod::ProtocolCheck {
         app.add_observer(|_t: Trigger<ProtocolMismatch>, mut h: ResMut<Hs>| h.mismatch += 1);
@@ -216,7 +268,7 @@ fn gen_seq(r: &mut Rng) -> Vec<usize> {
         let mut s = vec![];
         for _ in 0..len {
             let a = r.below(ACTIONS.len());
-            if a != 24 && !s.contains(&a) {
+            if !s.contains(&a) {
                 s.push(a);
             }
         }
@@ -338,6 +390,16 @@ fn run_case(seed: u64, exe: Option<&str>) -> Case {
             case.errs.push(format!("same sequence hashed differently twice in one process: {:?}", names(&seq)));
         }
         case.pairs += 1;
+        // the same registrations in an app with unrelated local state
+        for k in 1..=3u64 {
+            let app = build_with_noise(&seq, AuthMethod::ProtocolCheck, seed.wrapping_mul(7) + k);
+            let h = format!("{:?}", app.world().resource::<ProtocolHash>());
+            case.pairs += 1;
+            if h != h0 {
+                case.errs.push(format!("same registration sequence {:?} hashes to {h0} in a bare app and to {h} in an app with unrelated local components/resources", names(&seq)));
+                break;
+            }
+        }
         // determinism across processes
         if let Some(exe) = exe {
             let arg = seq.iter().map(|a| a.to_string()).collect::<Vec<_>>().join(",");
